@@ -5,6 +5,7 @@ import (
 	"fmt"
 	"net"
 	"regexp"
+	"rsc.io/binaryregexp"
 	"strconv"
 	"strings"
 	"testing"
@@ -199,10 +200,11 @@ func genC15(t *rapid.T) *C15Case {
 		pats := []string{"abc", "^abc$", "a.c", "a.*c", "(a)(b)(c)", "^(a|b)+$", "(?i)select", "sel(ect)?", "^$", "x$", "^x", "(\\d+)-(\\d+)",
 			"(a)(b)(c)(d)(e)(f)(g)(h)(i)(j)", "(a)(b)(c)(d)(e)(f)(g)(h)(i)", "(a)(b)(c)(d)(e)(f)(g)(h)(i)(j)(k)(l)", "(a)|(b)", "(x)?y", "[^a]b", "a\\.b", "\\bunion\\b",
 			// anchored literals, non-ASCII classes and literals (an invalid byte is one U+FFFD-wide character to RE2)
+			"a.b\\xff", "^\\xfe.$", "x\\x80+$",
 			"^Upload$", "(?i)^upload$", "^0$", "[^\\x00-\\x7f]", "id=[^\\x00-\\x7f]{2}", "é+", "[à-ü]x", "\\p{Greek}+", "(?i)straße", "^(?:ab|ac)d", "(?i)k+"}
 		c.Arg = rapid.SampledFrom(pats).Draw(t, "pat")
 		ins := []string{"abc", "ABC", "a\nc", "ac", "abcabc", "select", "SELECT * ", "sel", "", "x", "y", "xy", "ax\nx", "x\nb", "12-345", "abcdefghij", "abcdefghi", "abcdefghijkl", "a", "b", "zb", "ab", "a.b", "aXb", "a union b", "reunion",
-			"\xff", "id=\xe9\xe8", "é", "éé", "àx", "a\xffb", "αβγ", "first\nUpload", "\nUpload", "Upload\nmore", "Upload", "upload", "0", "\n0", "STRASSE", "straſe", "\u212a", "acd", "abd\n"}
+			"a\nb\xff", "a.b\xff", "\xfe\n", "q\n\xfe\n", "x\x80\x80\nmore", "\xff", "id=\xe9\xe8", "é", "éé", "àx", "a\xffb", "αβγ", "first\nUpload", "\nUpload", "Upload\nmore", "Upload", "upload", "0", "\n0", "STRASSE", "straſe", "\u212a", "acd", "abd\n"}
 		c.Input = []byte(perturb(t, rapid.SampledFrom(ins).Draw(t, "in")))
 		if rapid.IntRange(0, 2).Draw(t, "grammar") == 0 {
 			// pattern and input from the C11 generators (regexp/syntax grammar, bundled CRS patterns); patterns that take
@@ -480,6 +482,18 @@ func c15Expected(c *C15Case) (match bool, caps []string, hasCaps bool) {
 	case "validateUtf8Encoding":
 		return !utf8.Valid(c.Input), nil, false
 	case "rx":
+		if patternNamesRawBytes(c.Arg) {
+			// byte escapes: the pattern is matched byte-wise; the flags (dot matches newline, multi-line anchors) are the same
+			bre := binaryregexp.MustCompile("(?sm)" + c.Arg)
+			m := bre.FindStringSubmatch(in)
+			if m == nil {
+				return false, nil, true
+			}
+			if len(m) > 10 {
+				m = m[:10]
+			}
+			return true, m, true
+		}
 		re := regexp.MustCompile("(?sm)" + c.Arg)
 		m := re.FindStringSubmatch(in)
 		if m == nil {
@@ -491,6 +505,23 @@ func c15Expected(c *C15Case) (match bool, caps []string, hasCaps bool) {
 		return true, m, true
 	}
 	panic("unmodelled operator " + c.Op)
+}
+
+// patternNamesRawBytes: with its \xHH escapes decoded the pattern is not valid UTF-8, i.e. it names bytes that no
+// character has (rx.go: "Use binary regex matcher if expression matches non-utf8 bytes").
+func patternNamesRawBytes(p string) bool {
+	var b []byte
+	for i := 0; i < len(p); i++ {
+		if p[i] == '\\' && i+3 < len(p) && p[i+1] == 'x' {
+			if v, err := strconv.ParseUint(p[i+2:i+4], 16, 8); err == nil {
+				b = append(b, byte(v))
+				i += 3
+				continue
+			}
+		}
+		b = append(b, p[i])
+	}
+	return !utf8.Valid(b)
 }
 
 func c15Build(c *C15Case, tx *corazawaf.Transaction) (plugintypes.Operator, error) {
